@@ -58,6 +58,12 @@ def run(res, tier, seed):
                 for ln in lns:
                     k = (ln - residue) % 5
                     prt3.append(0 if k == 0 else tvals[k][0])
+                # a telemetry drop-out: the PRT words read 0 on 20 consecutive lines (4 readings of every thermometer; the
+                # remaining readings of each thermometer are the majority and the drop-outs are filled from them)
+                if rng.random() < 0.5:
+                    a0 = rng.randrange(3, n - 25)
+                    for i_ in range(a0, a0 + 20):
+                        prt3[i_] = 0
                 tmean = None
                 cs = rng.randrange(950, 1000)
                 # target count: such that the scene range is sensible
@@ -65,7 +71,8 @@ def run(res, tier, seed):
                 ict10 = [[10 * cbb] * 3 for _ in lns]
                 space10 = [[10 * cs] * 3 for _ in lns]
                 ctx = dict(spacecraft=sc, channel=thermal.IR[chan], target_K=tgt, lines=n, first_line=first, residue=residue,
-                           space_count=cs, target_count=cbb, seed=seed, thermometer_offsets_K=list(deltas), mean_prt_temperature=tmean4)
+                           space_count=cs, target_count=cbb, seed=seed, thermometer_offsets_K=list(deltas), mean_prt_temperature=tmean4,
+                           prt_dropout_lines=[i_ for i_, v_ in enumerate(prt3) if v_ == 0 and (lns[i_] - residue) % 5 != 0][:3])
                 W = 1024
                 counts = np.tile(np.arange(1024, dtype=float), (n, 1))
                 kind, out = call_impl(cal, chan, lns, prt3, ict10, space10, counts)
